@@ -833,6 +833,17 @@ func checkCursorResolution(p *core.Prog, r *core.Report, rule string) {
 	}
 	r.Check(sawFinal && len(bad) == 0, rule, "resolve/final-cursor", "a cursor on a final block resumes at that block + 1; a step-new cursor at its (junction) block + 1; a step-undo cursor at its block",
 		fmt.Sprintf("final=%v new=%v undo=%v %s", sawFinal, sawNew, sawUndo, strings.Join(bad, "; ")), p.Pos(fn.Pos()))
+	// a step that is neither resolves nothing: the function must not fall through to a success return with the zero start
+	okDefault := true
+	for _, ps := range paths {
+		if ps.End != "return" || len(ps.Results) != 4 || ps.Results[3] != "nil" {
+			continue
+		}
+		if ps.Results[0] == "0" {
+			okDefault = false
+		}
+	}
+	r.Check(okDefault, rule, "resolve/unknown-step-refused", "a cursor whose step is neither new nor undo (e.g. a forged `irreversible` step on a block that is not final) is refused: no success path returns the zero start block", "a success return yields the constant start block 0", p.Pos(fn.Pos()))
 	r.Check(sawNew && sawUndo, rule, "resolve/steps", "both cursor steps (new, undo) are resolved", fmt.Sprintf("new=%v undo=%v", sawNew, sawUndo), p.Pos(fn.Pos()))
 }
 
